@@ -23,6 +23,7 @@ import (
 	"fmt"
 	"math/rand"
 	"runtime"
+	"strings"
 
 	"github.com/canopy-network/canopy/fsm"
 	"github.com/canopy-network/canopy/lib"
@@ -54,6 +55,8 @@ func Run(o *drv.Out) {
 	corpusOversize(o) // corpus first
 	corpusFullBlock(o)
 	corpusLastCertVersion(o)
+	corpusParamCache(o)
+	corpusSlashReexecuted(o)
 	for ci := 0; ci < nCases; ci++ {
 		runCase(o, ci, nHeights, bigSends)
 	}
@@ -267,6 +270,208 @@ func corpusLastCertVersion(o *drv.Out) {
 		o.Fail("C03:sync-path-diverges:last-certificate-version", "full state scans of the proposer and the syncing node differ", map[string]any{"case": o.CurCase()})
 	}
 	o.Sample("corpus-last-certificate-version: 6 heights, proposer / replica / replay / sync nodes each store another +2/3 version of every commit certificate; all paths agree")
+}
+
+// corpusParamCache: family "failed-param-change-then-dependent-tx" (harness/execdrv/govern.go), C03
+// view: the proposer builds from a mempool that holds a governance transaction which edits the cached
+// parameters and then fails (or succeeds inside the dropped oversize remainder), followed by a
+// transaction / EndBlock that reads the parameter. The failed transaction is not in the block, so
+// every other path executes the block with the stored parameters and must get the proposer's header.
+func corpusParamCache(o *drv.Out) {
+	rounds := 1
+	if o.Tier == "thorough" || o.Search {
+		rounds = 3
+	}
+	for r := 0; r < rounds; r++ {
+		for vi, v := range execdrv.ParamVariants {
+			if r == 0 && v.Space == "fee" {
+				continue // kept for the thorough tier: nothing reads the fee space after the transactions
+			}
+			paramCacheCase(o, v, 2+(vi+r)%3, int64(100*r+vi))
+		}
+	}
+}
+
+func paramCacheCase(o *drv.Out, v execdrv.ParamVariant, val int, seed int64) {
+	o.Case(fmt.Sprintf("failed-param-change-then-dependent-tx:%s:val%d:%d", v.Name, val, seed))
+	rng := rand.New(rand.NewSource(60 + seed))
+	net := execdrv.ParamNetwork(40+seed, v.Remainder)
+	defer net.Close()
+	c := execdrv.NewChain(o, net, rng, []int{16, 2, 5})
+	P, V, R, S := c.NewNode("P", 0), c.NewNode("V", 1), c.NewNode("R", -1), c.NewNode("S", -1)
+	for hi := 0; hi < 2; hi++ {
+		h := P.Height()
+		var mp []node.MixTx
+		var gov []byte
+		if hi == 0 {
+			mp = []node.MixTx{{Kind: "send", Bytes: net.SendTx(net.AcctKeys[0], net.FreshAddr(7), 1000, 10000, h, "")}}
+		} else {
+			var txs [][]byte
+			txs, gov = c.ParamMempool(v, h, val, 1000)
+			for _, tx := range txs {
+				mp = append(mp, node.MixTx{Kind: "param-family", Bytes: tx})
+			}
+		}
+		pre := P.StateDigest()
+		p, ok := c.Propose(P, mp, "produce")
+		if !ok {
+			o.Fail("C03:proposer-failed", "ProduceProposal failed", map[string]any{"case": o.CurCase()})
+			return
+		}
+		fail := func(path, got, want string) {
+			o.Fail("C03:path-diverges:failed-param-change",
+				fmt.Sprintf("height %d: the proposer built the block from a mempool holding %s, followed by %s on validator %d; path %q gives %q, the proposer's header/results/state are %q", h, v.Describe(), v.Dependent, val, path, got, want),
+				map[string]any{"case": o.CurCase(), "height": h, "governance_tx": hex.EncodeToString(gov), "block": hex.EncodeToString(p.Block), "path": path})
+		}
+		c.Hold = true
+		okP := c.Validate(P, p)
+		resP := ""
+		if okP {
+			resP = c.Commit(P, p, false)
+		}
+		post := P.StateDigest()
+		o.Op(fmt.Sprintf("def %d %s %s %s %s", h, pre, p.ID, post, p.Obs), "def")
+		c.Release()
+		want := fmt.Sprintf("ok state=%s obs=%s", post, p.Obs)
+		if !okP || resP != want {
+			fail("propose+validate+commit-cached", fmt.Sprintf("validate ok=%v commit %q", okP, resP), want)
+			return
+		}
+		if !c.Validate(V, p) {
+			fail("validate", "rejected", want)
+			return
+		}
+		for _, x := range []struct {
+			path string
+			got  string
+		}{{"validate+commit-cached", c.Commit(V, p, false)}, {"commit-replay", c.Commit(R, p, false)}, {"sync", c.Commit(S, p, true)}} {
+			o.Count("compared")
+			if x.got != want {
+				fail(x.path, x.got, want)
+				return
+			}
+		}
+	}
+	o.Count("param-variant:" + v.Name)
+	o.Nontrivial(o.CurCase())
+}
+
+// corpusSlashReexecuted: scenario "slashing-block-re-executed-after-reset". Protocol version 2
+// (per-block slash tracker, 10 % double-sign slash, 15 % per-committee cap). The block at height 2
+// carries a certificateResults transaction of chain 2 naming validator 0 a double signer, so executing
+// it slashes validator 0 by 10 % for committee 2. Nodes that execute the block TWICE on the same state
+// machine with a Reset() in between must get what a node that executes it once gets:
+//
+//	P  proposer whose mempool FSM rebuilt the proposal twice (CheckMempool, Mempool.FSM.Reset, CheckMempool)
+//	X  validate, round interrupt, validate again, commit with the cached result
+//	Y  validate, round interrupt, commit by replay
+//	R  fresh: commit by replay          S  fresh: sync
+//
+// If the tracker survives Reset() the second execution sees 10 % already used, slashes only the 5 %
+// left under the cap and ejects the validator from the committee: another header on that path.
+func corpusSlashReexecuted(o *drv.Out) {
+	o.Case("slashing-block-re-executed-after-reset")
+	rng := rand.New(rand.NewSource(51))
+	const nested = node.ChainId + 1
+	net := node.NewNetwork(22, 4, nil, 12, node.Options{MutateGenesis: func(g *fsm.GenesisState) {
+		g.Params.Consensus.ProtocolVersion = fsm.NewProtocolVersion(0, 2)
+		for _, v := range g.Validators {
+			v.Committees = []uint64{node.ChainId, nested}
+		}
+		g.Pools = append(g.Pools, &fsm.Pool{Id: nested, Amount: 1})
+	}})
+	defer net.Close()
+	c := execdrv.NewChain(o, net, rng, []int{16, 2, 5})
+	P, X, Y, R, S := c.NewNode("P", 0), c.NewNode("X", 1), c.NewNode("Y", 2), c.NewNode("R", -1), c.NewNode("S", -1)
+	stake0 := func(nd *node.Node) string {
+		v, err := nd.C.FSM.GetValidator(crypto.NewAddress(node.Addr(net.ValKeys[0])))
+		if err != nil || v == nil {
+			return "absent"
+		}
+		return fmt.Sprintf("stake %d committees %v", v.StakedAmount, v.Committees)
+	}
+	for hi := 0; hi < 2; hi++ {
+		h := P.Height()
+		txs := []node.MixTx{{Kind: "send", Bytes: net.SendTx(net.AcctKeys[0], net.FreshAddr(int(h)+50), 1000, 10000, h, "")}}
+		if hi == 1 {
+			ev := &lib.SlashRecipients{DoubleSigners: []*lib.DoubleSigner{{Id: net.ValKeys[0].PublicKey().Bytes(), Heights: []uint64{1}}}}
+			rw := &lib.RewardRecipients{PaymentPercents: []*lib.PaymentPercents{{Address: net.FreshAddr(1), Percent: 100, ChainId: nested}}}
+			txs = append(txs, node.MixTx{Kind: "certresults-double-signer", Bytes: net.CertificateResultsTx(P, nested, 1, h-1, 0, []int{0, 1, 2, 3},
+				&lib.CertificateResult{RewardRecipients: rw, SlashRecipients: ev}, h)})
+		}
+		pre := P.StateDigest()
+		for _, tx := range txs {
+			if err := P.Submit(tx.Bytes); err != nil {
+				panic(err)
+			}
+		}
+		// the proposer's mempool state machine builds the proposal, is reset, and builds it again
+		_ = P.CheckMempool()
+		_ = P.CheckMempool()
+		p, ok := c.Propose(P, nil, "produce")
+		if !ok || p.NTx != len(txs) {
+			o.Fail("C03:harness:slash-scenario-not-reached", fmt.Sprintf("height %d: the proposal does not hold the %d transactions", h, len(txs)), map[string]any{"case": o.CurCase()})
+			return
+		}
+		before := stake0(P)
+		fail := func(path, got, want string) {
+			o.Fail("C03:path-diverges:slash-tracker-survives-reset",
+				fmt.Sprintf("height %d: a block that slashes validator 0 (double signer, committee 2) executed on path %q gives %q; a node executing it once gives %q (validator 0 before the block: %s)", h, path, got, want, before),
+				map[string]any{"case": o.CurCase(), "height": h, "path": path, "block": hex.EncodeToString(p.Block)})
+		}
+		// reference: the fresh replay node
+		c.Hold = true
+		gotR := c.Commit(R, p, false)
+		post := R.StateDigest()
+		o.Op(fmt.Sprintf("def %d %s %s %s %s", h, pre, p.ID, post, p.Obs), "def")
+		c.Release()
+		want := fmt.Sprintf("ok state=%s obs=%s", post, p.Obs)
+		if gotR != want {
+			fail("propose(mempool rebuilt twice) -> fresh commit-replay", gotR, want)
+			return
+		}
+		wantStake := stake0(R)
+		run := func(name string, got string, nd *node.Node) bool {
+			o.Count("compared")
+			if got != want || stake0(nd) != wantStake {
+				fail(name, got+" / validator 0: "+stake0(nd), want+" / validator 0: "+wantStake)
+				return false
+			}
+			return true
+		}
+		okP := c.Validate(P, p)
+		if !okP || !run("proposer validate+commit-cached", c.Commit(P, p, false), P) {
+			if !okP {
+				fail("proposer validates its own (twice rebuilt) proposal", "rejected", want)
+			}
+			return
+		}
+		c.Validate(X, p)
+		c.Interrupt(X)
+		if !c.Validate(X, p) {
+			fail("validate, round interrupt, validate again", "rejected", want)
+			return
+		}
+		if !run("validate, interrupt, validate, commit-cached", c.Commit(X, p, false), X) {
+			return
+		}
+		c.Validate(Y, p)
+		c.Interrupt(Y)
+		if !run("validate, round interrupt, commit-replay", c.Commit(Y, p, false), Y) {
+			return
+		}
+		if !run("sync", c.Commit(S, p, true), S) {
+			return
+		}
+		if hi == 1 {
+			o.Count("slash-reexecuted:validator0:" + strings.ReplaceAll(before, " ", "_") + "->" + strings.ReplaceAll(wantStake, " ", "_"))
+			if before == wantStake {
+				o.Fail("C03:harness:slash-scenario-not-reached", "validator 0 was not slashed by the block", map[string]any{"case": o.CurCase()})
+			}
+		}
+	}
+	o.Nontrivial(o.CurCase())
+	o.Sample("slashing-block-re-executed-after-reset: the slashing block executed twice with a Reset in between (proposer mempool, validate/interrupt/validate, validate/interrupt/replay) == executed once")
 }
 
 // step is one height of the chain as the proposer saw it.
